@@ -8,7 +8,7 @@ ap = argparse.ArgumentParser()
 ap.add_argument('src'); ap.add_argument('entry'); ap.add_argument('--unwind', type=int, default=10)
 ap.add_argument('-D', action='append', default=[]); ap.add_argument('--config', default='base')
 ap.add_argument('--flag', action='append', default=[]); ap.add_argument('--unwindset', action='append', default=[])
-ap.add_argument('--checks', default='none'); ap.add_argument('--lb', action='append', default=[], help='regex=bound'); ap.add_argument('--object-bits', type=int, default=10)
+ap.add_argument('--checks', default='none'); ap.add_argument('--yield-in', dest='yield_in', default=None); ap.add_argument('--lb', action='append', default=[], help='regex=bound'); ap.add_argument('--object-bits', type=int, default=10)
 ap.add_argument('--timeout', type=int, default=600); ap.add_argument('--mem', type=float, default=24)
 ap.add_argument('--stubs', default=None); ap.add_argument('--noinline', action='append', default=[])
 ap.add_argument('--max-node-type', type=int, default=None); ap.add_argument('--threads', action='store_true')
@@ -17,7 +17,7 @@ ap.add_argument('--wd', default='/tmp/try'); ap.add_argument('--native', action=
 ap.add_argument("--vec", default=None); ap.add_argument("--extern-c", dest="extern_c", action="append", default=[]); ap.add_argument('--cdef', action='append', default=[])
 a = ap.parse_args()
 u = pl.Unit(a.src, a.config, defines=a.D, stubs=None if a.stubs is None else [s for s in a.stubs.split(',') if s], noinline=a.noinline,
-            threads=a.threads, max_node_type=a.max_node_type, nondet_init=a.nondet_init, extra_glue=a.glue, cdefs=a.cdef, extern_c=a.extern_c)
+            threads=a.threads, max_node_type=a.max_node_type, nondet_init=a.nondet_init, extra_glue=a.glue, cdefs=a.cdef, extern_c=a.extern_c, yield_in=a.yield_in)
 t0 = time.time()
 c = u.build(a.wd)
 print('built', c, u.info, 'in %.1fs' % (time.time() - t0))
